@@ -357,6 +357,74 @@ func checkC16(c *core.Ctx) {
 		}
 		return core.Pass()
 	})
+	// (4e) a further Forward (an evaluation batch) between BackPropagate and the use of the
+	// delivered gradients leaves them in place: same gradient objects, same values, and the
+	// optimizer can still step the parameters through the Weights() pointers
+	for _, evalTracked := range []bool{false, true} {
+		evalTracked := evalTracked
+		c.Case(fmt.Sprintf("evalforward/tracked%v", evalTracked), true, func() core.Verdict {
+			w := enum.Generic([]int{2}, 891, 0.5, 3, true)
+			b := enum.Generic([]int{2}, 892, 0.5, 3, true)
+			fc, err := layers.NewFC(&layers.FCConfig{Inputs: 3, Outputs: 2, Initializers: map[string]layers.Initializer{"Weight": fixedInit{t: w}, "Bias": fixedInit{t: b}}})
+			if err != nil {
+				return core.Fail("NewFC: %v", err)
+			}
+			x := enum.Generic([]int{1, 3}, 893, 0.5, 3, true) // batch of one: the listed finding cannot show
+			y, err := fc.Forward(rt.Make(x, false))
+			if err != nil {
+				return core.Fail("Forward: %v", err)
+			}
+			if err := tensor.BackPropagate(y); err != nil {
+				return core.Fail("BackPropagate: %v", err)
+			}
+			ws := fc.Weights()
+			gw, gb := (*ws[0].Value).Gradient(), (*ws[1].Value).Gradient()
+			if gw == nil || gb == nil {
+				return core.Fail("no parameter gradients after back-propagation")
+			}
+			vw, vb := rt.Read(gw), rt.Read(gb)
+			wt, bt := *ws[0].Value, *ws[1].Value
+			for k := 0; k < 2; k++ {
+				x2 := enum.Generic([]int{2, 3}, uint64(894+k), 0.5, 3, true)
+				y2, err := fc.Forward(rt.Make(x2, evalTracked))
+				if err != nil {
+					return core.Fail("second Forward: %v", err)
+				}
+				if ok, msg := core.Close(rt.Read(y2), fcModel(x2, w, b), 100); !ok {
+					return core.Fail("second Forward: %s", msg)
+				}
+			}
+			ws = fc.Weights()
+			if *ws[0].Value != wt || *ws[1].Value != bt {
+				return core.Fail("a Forward replaced the parameter tensors behind the Weights() pointers")
+			}
+			if (*ws[0].Value).Gradient() != gw || (*ws[1].Value).Gradient() != gb {
+				return core.Fail("a further Forward (evaluation batch) after BackPropagate removed or replaced the gradients delivered to W / B (W: %v, B: %v)", (*ws[0].Value).Gradient() != nil, (*ws[1].Value).Gradient() != nil)
+			}
+			if ok, msg := core.ExactEq(rt.Read(gw), vw); !ok {
+				return core.Fail("a further Forward changed W's gradient: %s", msg)
+			}
+			if ok, msg := core.ExactEq(rt.Read(gb), vb); !ok {
+				return core.Fail("a further Forward changed B's gradient: %s", msg)
+			}
+			opt := lrCfg{lr: 0.5}.opt()
+			for i, wp := range ws {
+				before := rt.Read(*wp.Value)
+				g := rt.Read((*wp.Value).Gradient())
+				if err := opt.Update(wp.Value); err != nil {
+					return core.Fail("Update of parameter %d after an evaluation Forward: %v", i, err)
+				}
+				exp := ref.New(before.Shape)
+				for j := range exp.V {
+					exp.V[j] = before.V[j] - 0.5*g.V[j]
+				}
+				if ok, msg := core.Close(rt.Read(*wp.Value), exp, 10); !ok {
+					return core.Fail("Update of parameter %d after an evaluation Forward: %s", i, msg)
+				}
+			}
+			return core.Pass()
+		})
+	}
 	// (4c) twelve forward/backward passes on ONE layer, alternating batch sizes
 	c.Case("long/alternating", true, func() core.Verdict {
 		w := enum.Generic([]int{3}, 871, 0.5, 3, true)
